@@ -778,6 +778,22 @@ func (s *Searcher) fetchRRCs() (*iqr.IQR, error) {
 	// we always take blocks from the front of the list.
 	s.remainingBlocksSorted = s.remainingBlocksSorted[len(nextBlocks):]
 
+	if s.gotAllSegments && len(s.remainingBlocksSorted) == 0 {
+		// No more segments and no more blocks: nothing can arrive anymore, so every
+		// record read so far is final. A segment that was still being written when the
+		// query listed it can hold records outside the time range it was listed with;
+		// holding those back behind the last cut-off would keep them unsent forever and
+		// this fetch would never reach EOF.
+		switch s.sortMode {
+		case recentFirst:
+			endTime = 0
+		case recentLast:
+			endTime = math.MaxUint64
+		case anyOrder:
+			// Do nothing.
+		}
+	}
+
 	if len(s.remainingBlocksSorted) == 0 || endTime == s.cutOffTimestampInMs {
 		// We've processed all the blocks that we safely can, so we need to
 		// fetch more.
